@@ -84,7 +84,9 @@ func (g *cacheReqGenerator) GenerateRequests(ctx context.Context, r *scan.Range)
 	go func() {
 		defer close(result)
 		for request := range requests {
-			if mac := g.getMAC(request.DstIP); mac != nil {
+			if request.Err != nil {
+				// forward error requests unchanged
+			} else if mac := g.getMAC(request.DstIP); mac != nil {
 				request.DstMAC = mac
 			} else {
 				request.Err = fmt.Errorf("no destination MAC address for %s", request.DstIP)
